@@ -44,6 +44,11 @@ func flipPattern(r *Rng, pat string, all bool) string {
 					i++
 				}
 			}
+			if i+1 < len(rs) && (rs[i] == 'p' || rs[i] == 'P') && rs[i+1] == '{' {
+				for i < len(rs) && rs[i] != '}' { // a category name is not a pattern letter
+					i++
+				}
+			}
 			continue
 		}
 		if c == '(' && i+1 < len(rs) && rs[i+1] == '?' {
@@ -117,6 +122,9 @@ var ciTemplates = []string{
 	`abc`, `a+b`, `(a|B)c`, `[abc]+z`, `[^abc]z`, `é+`, `äb`, `αλ`, `яд`, `[α-λ]`, `[а-я]+`, `(?:ab|AC)z`, `a(?=b)`, `(?<=a)b`, `(?<!a)b`, `a(?!b)`,
 	`(a)\1`, `(ab)c\1`, `(?<n>[a-c])\k<n>`, `(é)x\1`, `(a|b)\1+`, `([a-c]+)-\1`,
 	`abc\w+`, `abcz\d`, `(?:abc|abe|zzz)\d`, `a.c`, `..ab`, `\w*az`, `[^,]*,a`, `a*b`, `b$`, `^a`, `\Aab`, `ab\z`, `a{2,3}b`, `(?>a+)b`,
+	// classes that cover everything but a short run (normalised to a negated form listing the run), with an explicit
+	// member whose case partner lies in that run; and categories inside a subtraction (widened under IgnoreCase)
+	`[\x00-\x60b-\x{10FFFF}]`, `[\x00-jl-\x{10FFFF}]x`, `[\x00-\x40C-\x{10FFFF}]+`, `[\x01-\x{10FFFF}]a`, `[\x00-дж-\x{10FFFF}]`, `[\w-[\p{Lu}]]`, `[a-z-[\p{Ll}]]x`, `[abc-[\p{Lu}]]`, `[\w$-[\p{Ll}]]`, `[a-z5-[\w-[\p{Lu}]]]`, `[\p{L}-[\p{Uppercase_Letter}]]`,
 	`\bab\b`, `a\Bb`, `[a-c][e-z]`, `[eéä]+b`, `z[^é]`, `[^a-c][^z]`,
 }
 
